@@ -3,7 +3,7 @@
 import glob, json, os, re
 V = os.path.dirname(os.path.dirname(os.path.abspath(__file__)))
 rows = []
-stats = {"caught": 0, "exit2": 0, "missed": 0}
+stats = {"caught": 0, "exit2": 0, "missed": 0, "obsolete": 0}
 def keyf(m):
     sid = os.path.basename(os.path.dirname(m))
     a, b = sid.split("-")
@@ -13,7 +13,11 @@ for m in sorted(glob.glob(os.path.join(V, "seeded", "*", "meta.json")), key=keyf
     meta = json.load(open(m))
     rep = json.load(open(d + "/check_result.json")) if os.path.exists(d + "/check_result.json") else {}
     cross = json.load(open(d + "/cross_result.json")) if os.path.exists(d + "/cross_result.json") else {}
-    if rep.get("caught"):
+    if meta.get("obsolete"):
+        # the change no longer breaks the property on today's tree (a later fix: commit removed what it relied on)
+        by = "no longer a breaking change: %s" % meta["obsolete"]
+        stats["obsolete"] += 1
+    elif rep.get("caught"):
         keys = rep.get("keys", [])
         by = "`%s`" % keys[0] if keys else "yes"
         if len(keys) > 1:
